@@ -36,6 +36,7 @@ type Engine struct {
 	axioms        []*Axiom
 	pure          map[string]bool
 	ignore        []string
+	observers     []string // getters of environment objects: no effect, result arbitrary but made of existing objects
 	strTab        map[string]int64
 	strRev        map[int64]string
 	typeIDs       map[string]int64
@@ -82,6 +83,19 @@ func (e *Engine) typeID(t types.Type) int64 {
 
 func (e *Engine) isIgnored(key string) bool {
 	for _, p := range e.ignore {
+		if strings.HasSuffix(p, "*") {
+			if strings.HasPrefix(key, p[:len(p)-1]) {
+				return true
+			}
+		} else if key == p {
+			return true
+		}
+	}
+	return false
+}
+
+func (e *Engine) isObserverDecl(key string) bool {
+	for _, p := range e.observers {
 		if strings.HasSuffix(p, "*") {
 			if strings.HasPrefix(key, p[:len(p)-1]) {
 				return true
@@ -297,6 +311,9 @@ func (e *Engine) AddSpecFile(sf *SpecFile) error {
 		}
 		e.ignore = append(e.ignore, e.resolveKey(sf.PkgPath, p, true))
 	}
+	for _, p := range sf.Observer {
+		e.observers = append(e.observers, e.resolveKey(sf.PkgPath, p, true))
+	}
 	return nil
 }
 
@@ -360,11 +377,20 @@ func (e *Engine) VerifyFunc(c *Contract) (res *FuncResult) {
 	if c.Opts["arith"] == "checked" {
 		ex.arith = true
 	}
+	if c.Opts["arith"] == "ranged" {
+		ex.ranged = true
+	}
 	ex.callCells = map[string]*Cell{}
+	ex.resCells = map[string]*Cell{}
 	var scan func(e *SExpr)
 	scan = func(e *SExpr) {
 		if e == nil {
 			return
+		}
+		if e.Op == "call" && e.Args[0].Op == "id" && e.Args[0].Name == "lastresult" && len(e.Args) >= 2 && e.Args[1].Op == "str" {
+			if ex.resCells[e.Args[1].Name] == nil {
+				ex.resCells[e.Args[1].Name] = ex.newCell("$res_"+e.Args[1].Name, nil, 0)
+			}
 		}
 		if e.Op == "call" && e.Args[0].Op == "id" && e.Args[0].Name == "calls" && len(e.Args) == 2 && e.Args[1].Op == "str" {
 			if ex.callCells[e.Args[1].Name] == nil {
@@ -402,8 +428,8 @@ func (e *Engine) VerifyFunc(c *Contract) (res *FuncResult) {
 		}
 	}()
 	st := &State{cells: map[*Cell]Val{}, heap: map[string]*Term{}, guard: True}
-	st.wm = Sym("alloc0", SInt)
-	ex.assumeRaw(Ge(st.wm, Int(1)))
+	st.wm = newWMs()
+	ex.wm0 = st.wm.clone()
 	ex.entry = st
 	// parameters
 	var args []Val
@@ -565,7 +591,10 @@ func (ex *Exec) frameObligations(env0 *SpecEnv, entry, out *State, c *Contract) 
 			continue
 		}
 		o := Fresh("o", SInt)
-		conds := []*Term{Ge(o, Int(1)), Le(o, entry.wm)}
+		conds := []*Term{Ge(o, Int(1))}
+		if owner := heapOwnerKey[n]; owner != "" {
+			conds = append(conds, Le(o, ex.wmGet(entry.wm, owner)))
+		}
 		for _, ix := range allowed[n] {
 			conds = append(conds, Ne(o, ix))
 		}
